@@ -4,6 +4,7 @@
 mod common;
 mod rng;
 mod c11;
+mod c12;
 
 use std::io::{BufWriter, Write};
 
@@ -23,6 +24,7 @@ fn main() {
             let seed: u64 = args.get(4).and_then(|s| s.parse().ok()).unwrap_or(1);
             match prop {
                 "C11" => c11::gen(tier, seed, &mut out),
+                "C12" => c12::gen(tier, seed, &mut out),
                 _ => {
                     eprintln!("unknown property {}", prop);
                     std::process::exit(2);
@@ -38,6 +40,11 @@ fn main() {
                 }
                 let input = line.split(" => ").next().unwrap();
                 let toks: Vec<&str> = input.split(' ').collect();
+                if toks[0] == "C12" {
+                    // events and number table are derived from the document: regenerate the whole line
+                    writeln!(out, "{}", c12::line_for(&common::unhex(toks[1]))).unwrap();
+                    continue;
+                }
                 let obs = replay_one(&toks);
                 writeln!(out, "{} => {}", input, obs).unwrap();
             }
